@@ -299,3 +299,79 @@ def edit_canary(H, _):
     q.option_values["fit_to_pattern"] = v
     r = H.call(q.clone)
     H.check("canary_any_value_survives", r.option_values["fit_to_pattern"] == v)
+
+
+@contract(
+    "edit_text_after_load", ["C06"], kind="bounded",
+    targets=["rv.readers.module:ModuleReader.process_SNAM", "rv.readers.module:ModuleReader.process_SMIN", "rv.readers.sunvox:SunVoxReader.process_NAME",
+             "rv.readers.pattern:PatternReader.process_PNME", "rv.modules.metamodule:MetaModule.load_label", "rv.modules.module:Module.iff_chunks"],
+    bound="a generated project (Amplifier, MetaModule with two labelled user-defined controllers, a named pattern) and the fixture single-fm.sunvox, "
+          "loaded; every text attribute set to each name of a catalogue (ASCII, multi-byte, 32-byte boundary, leading / trailing / inner white space); natively",
+)
+def edit_text_after_load(H, _):
+    """After loading, setting a text attribute (module name, MIDI-out name, project name, pattern name,
+    user-defined controller label) to any text without NUL and saving gives a file that shows that text
+    (module names: the longest prefix that fits 32 bytes) and leaves the other texts as they were."""
+    import io
+    import os
+
+    from rv.modules.amplifier import Amplifier
+    from rv.modules.metamodule import MetaModule
+    from rv.pattern import Pattern
+    from rv.project import Project
+    from rv.readers.reader import read_sunvox_file
+    from spec import format as F
+
+    from .c01 import WHITESPACE_NAMES
+
+    def cycle(obj):
+        f = io.BytesIO()
+        obj.write_to(f)
+        return read_sunvox_file(io.BytesIO(f.getvalue()))
+
+    def generated():
+        p = Project()
+        p.new_module(Amplifier, name="amp")
+        mm = p.new_module(MetaModule, name="meta")
+        mm.user_defined_controllers = 2
+        mm.user_defined[0].label = "first"
+        mm.user_defined[1].label = "second"
+        p.attach_pattern(Pattern(lines=1, tracks=1, name="verse"))
+        return cycle(p)
+
+    sources = {"generated": generated}
+    fx = os.path.join(os.environ.get("RV_REPO", "/repo"), "tests", "files", "single-fm.sunvox")
+    if os.path.exists(fx):
+        sources["single-fm.sunvox"] = lambda: read_sunvox_file(fx)
+    texts = ["renamed", "ünï ☃ mixed", "exactly thirty-two bytes long !!!", "x" * 40] + WHITESPACE_NAMES
+    for sname, make in sources.items():
+        for text in texts:
+            p = make()
+            mods = [m for m in p.modules if m is not None and m.index > 0]
+            pats = [x for x in p.patterns if isinstance(x, Pattern)]
+            want_name = F.dec_cstring(F.enc_name32(text))
+            p.name = text
+            for m in mods:
+                m.name = text
+                m.midi_out_name = text
+                if isinstance(m, MetaModule):
+                    m.user_defined[0].label = text
+            for x in pats:
+                x.name = text
+            w = {"source": sname, "text": repr(text)}
+            try:
+                q = cycle(p)
+            except Exception as e:  # noqa
+                H.check("edited_file_saves_and_loads", False, witness=dict(w, error=repr(e)))
+                continue
+            H.check("project_name_is_what_was_set", q.name == text, witness=dict(w, got=repr(q.name)))
+            for m in mods:
+                m2 = q.modules[m.index]
+                H.check("module_name_is_what_was_set", m2.name == want_name, witness=dict(w, got=repr(m2.name), want=repr(want_name)))
+                H.check("midi_out_name_is_what_was_set", m2.midi_out_name == text, witness=dict(w, got=repr(m2.midi_out_name)))
+                if isinstance(m, MetaModule):
+                    H.check("label_is_what_was_set", m2.user_defined[0].label == text, witness=dict(w, got=repr(m2.user_defined[0].label)))
+                    H.check("other_label_untouched", m2.user_defined[1].label == "second", witness=dict(w, got=repr(m2.user_defined[1].label)))
+            for x in pats:
+                x2 = q.patterns[p.patterns.index(x)]
+                H.check("pattern_name_is_what_was_set", x2.name == text, witness=dict(w, got=repr(x2.name)))
